@@ -8,6 +8,7 @@ import (
 	_ "verif/checks/c04"
 	_ "verif/checks/c05"
 	_ "verif/checks/c08"
+	_ "verif/checks/c09"
 	_ "verif/checks/c10"
 	_ "verif/checks/c12"
 	_ "verif/checks/c13"
